@@ -159,4 +159,29 @@ def overBudget (b : Band) : Bool := decide (numCells b > RbV.Gen.Limits.maxCells
 /-- cell `(i, j)` of the DP matrix lies in the band -/
 def Mem (b : Band) (i j : Nat) : Prop := (b.ranges.getD j (0, 0)).1 ≤ i ∧ i < (b.ranges.getD j (0, 0)).2
 
+/-! ### Connectedness — the shape invariant the bands of the constructions satisfy beyond `WF`
+
+`band_ranges_in_bounds` keeps the *indices* of `compute_alignment` in range but says nothing about the shape.  What the
+recurrences need in order to carry a real score from the first to the last column is that the band is one staircase:
+the non-empty columns are consecutive, and from one non-empty column to the next the range moves down monotonically
+(start and end never decrease) without a hole (`start_{j+1} ≤ end_j`: the last cell of column `j` has its right or its
+diagonal neighbour in column `j + 1`).  Observed on every band of every run (driver tag `band-connected`); the
+off-by-one mutants b1/b4/b6 of docs/notes/C02.md produce bands that violate it. -/
+
+/-- column `j` is non-empty (`start < end`; columns beyond the list count as empty) -/
+def NE (rs : Ranges) (j : Nat) : Prop := (rs.getD j (0, 0)).1 < (rs.getD j (0, 0)).2
+
+instance (rs : Ranges) (j : Nat) : Decidable (NE rs j) := by unfold NE; infer_instance
+
+/-- **Band connectedness**: (1) two consecutive non-empty columns `j`, `j + 1` satisfy `start_{j+1} ≤ end_j`,
+`start_j ≤ start_{j+1}`, `end_j ≤ end_{j+1}`; (2) the non-empty columns are consecutive (after a non-empty column followed by
+an empty one, every later column is empty). -/
+def Connected (rs : Ranges) : Prop :=
+  (∀ j ∈ List.range rs.length, NE rs j → NE rs (j + 1) →
+    (rs.getD (j + 1) (0, 0)).1 ≤ (rs.getD j (0, 0)).2 ∧ (rs.getD j (0, 0)).1 ≤ (rs.getD (j + 1) (0, 0)).1 ∧
+      (rs.getD j (0, 0)).2 ≤ (rs.getD (j + 1) (0, 0)).2) ∧
+  (∀ j ∈ List.range rs.length, NE rs j → ¬ NE rs (j + 1) → ∀ j' ∈ List.range rs.length, j + 1 < j' → ¬ NE rs j')
+
+instance (rs : Ranges) : Decidable (Connected rs) := by unfold Connected; infer_instance
+
 end RbV.Model.Band
